@@ -155,7 +155,7 @@ type c12Layout struct {
 	LineAt int `json:"lineat,omitempty"`
 }
 
-var c12Words = []string{"Does things.", "x = y", "see Other", "a // b", "note: careful", "TODO(me): later", "中文 doc", "tail"}
+var c12Words = []string{"Does things.", "x = y", "see Other", "a // b", "note: careful", "TODO(me): later", "中文 doc", "tail", "host:port or :port", "key:value pairs follow", "0:off 1:on", "unit:ms", "http://example.com/x", "a:b"}
 var c12Tags = []string{"+gengo:runtimedoc", "+gengo:deepcopy=false", "+k=v", "+k=a=b", "+k v w", "@name value", "+flag", "+k =v", "+gengo:x:sub=1"}
 
 func genC12Comment(t *rapid.T, label string) []string {
